@@ -2,6 +2,7 @@ package harness
 
 import (
 	"strconv"
+	"strings"
 
 	at "github.com/DanielSvub/anytype"
 	"pgregory.net/rapid"
@@ -17,10 +18,16 @@ type C16Case struct {
 	// Share: the root holds the same non-empty container content twice and is built with ONE instance at
 	// both places (an acyclic structure in which a container is reachable along two paths)
 	Share bool `json:"share,omitempty"`
+	// Parsed: when set, the container is obtained by parsing this text (lenient spellings, see C02) instead
+	// of being built from Root; skipped if the library rejects the text
+	Parsed string `json:"parsed,omitempty"`
 }
 
 func GenC16(t *rapid.T) *C16Case {
 	ind := []int{-3, -1, -1, 0, 0, 1, 2, 2, 3, 4, 4, 5, 6, 7, 8, 9, 10, 10, 11, 11, 14, -1000, 1 << 40}[drawInt(t, 0, 22, "indent")]
+	if oneIn(t, 12, "parsed") {
+		return &C16Case{Root: VList(), Indent: ind, Parsed: genLenientText(t)}
+	}
 	c := &C16Case{Root: genTreeCase(t), Indent: ind}
 	if oneIn(t, 8, "share") {
 		c.Root, c.Share = withSharedChild(t, c.Root)
@@ -97,6 +104,32 @@ func CheckC16(c *C16Case, st *Stats) error {
 	orig := buildMaybeShared(root, c.Share)
 	if c.Share {
 		st.Count("shared_instance")
+	}
+	if c.Parsed != "" {
+		out, gerr := guarded("parse", func() (any, error) {
+			if strings.HasPrefix(c.Parsed, "[") {
+				l, e := at.ParseList(c.Parsed)
+				if l == nil {
+					return nil, e
+				}
+				return l, e
+			}
+			o, e := at.ParseObject(c.Parsed)
+			if o == nil {
+				return nil, e
+			}
+			return o, e
+		})
+		if gerr != nil || out.c == nil || out.err != nil {
+			st.Count("parsed_route.rejected")
+			return nil
+		}
+		snap, err := Snap(out.c)
+		if err != nil {
+			return err
+		}
+		orig, root = out.c, snap
+		st.Count("parsed_route.accepted")
 	}
 	before, err := TakeIdentSnap(orig)
 	if err != nil {
@@ -176,7 +209,7 @@ func CheckC16(c *C16Case, st *Stats) error {
 
 func init() {
 	Register("C16",
-		"rapid-generated value trees (as C02, shared instances and 1001-1500 nesting levels included) x indent drawn from {-1000,-3,-1,0..10,11,14,2^40} weighted to the boundaries. Inside 0..10 the output must be non-empty, accepted by the strict scanner, denote the generated tree, equal byte-for-byte the canonical layout re-created from its own raw tokens, consist of exactly the raw tokens of String() (members matched by key), and be read back by the library as the same container with the same kinds; outside it must panic; container unchanged. Non-trivial = indent outside the range, or nesting >= 2 with an empty container or a string/key that needs escaping. Distinct = distinct FNV-64a hash of the case JSON.",
+		"rapid-generated value trees (as C02, shared instances, 1001-1500 nesting levels and containers obtained by parsing lenient spellings included) x indent drawn from {-1000,-3,-1,0..10,11,14,2^40} weighted to the boundaries. Inside 0..10 the output must be non-empty, accepted by the strict scanner, denote the generated tree, equal byte-for-byte the canonical layout re-created from its own raw tokens, consist of exactly the raw tokens of String() (members matched by key), and be read back by the library as the same container with the same kinds; outside it must panic; container unchanged. Non-trivial = indent outside the range, or nesting >= 2 with an empty container or a string/key that needs escaping. Distinct = distinct FNV-64a hash of the case JSON.",
 		GenC16, CheckC16)
 }
 
